@@ -105,12 +105,14 @@ RULE = (
     "a case is one valid proto (generated by gen_proto: ModelProto 46% / GraphProto / FunctionProto / NodeProto / "
     "TensorProto / AttributeProto / ValueInfoProto / TypeProto, IR version 3..13, features toggled independently, some "
     "forced; or - 8% - a model of the ONNX backend corpus) with canary tokens in every external-data location, "
-    "then 1-8 mutations (3% of the cases: none, as a control) drawn from 44 kinds (9% of the model/graph/function cases first get "
+    "then 1-8 mutations (3% of the cases: none, as a control) drawn from 45 kinds (9% of the model/graph/function cases first get "
     "the library's own naming scheme - values consistently renamed to val_<n>, nodes to node_<op>_<n>, in one or all containers - "
     "and then, 3 times in 4, a definition (graph/function input, initializer, node output, node, graph) loses its name, so that any name "
     "the library invents meets a declared one; 7% of the cases are instead a sequence "
     "of 2-5 from_proto calls in one process over differently mutated views of one base model, each step also judged alone "
-    "in a pristine process): dangling/duplicated/empty names, "
+    "in a pristine process): dangling/duplicated/empty names, whole runs of one repeated name field emptied (a node none of whose "
+    "2-4 outputs or inputs is named, graphs/functions whose inputs, outputs, initializers, value infos, attributes are all unnamed; "
+    "all / trailing / leading / all but one), "
     "missing types, shuffled/cyclic/self-consuming nodes, unknown enum integers, payload/type mismatches, invalid "
     "UTF-8, dims vs data, several storage fields, absurd external_data, redeclared outputs, initializers named like "
     "inputs/node outputs, subgraph names shadowing outer names (also consistently: definition and every reference renamed "
@@ -205,6 +207,10 @@ def plan(tier: str) -> dict:
         "library_named_cases_with_unnamed_definition": 45 if quick else 1200,
         "deeply_nested_cases": 25 if quick else 800,
         "deeply_nested_small_cases": 15 if quick else 450,
+        "all_empty_list_round_trips": 60 if quick else 2000,
+        "all_empty_round_trip:NodeProto.output": 4 if quick else 200,
+        "all_empty_round_trip:NodeProto.input": 4 if quick else 200,
+        "raw_output_lists_compared": 1000 if quick else 45000,
     }
     rare = ("exp_value_info", "dup_function", "recursive_function", "ir_version")
     for k in mp.KINDS:
@@ -871,6 +877,43 @@ def _without_vacuous_value_info(proto):
     return out
 
 
+def _raw_fixed_point_events(p1, p2, count) -> list[dict]:
+    """p1 and p2 are equal in canonical form.  Compare what the canonical form normalises away, raw: the output
+    list of every node (judged: N5 trims trailing unnamed outputs, and the serializer's own output is trimmed
+    already), every ``domain`` string and the value-info names of every container (report-only)."""
+    out: list[dict] = []
+    n1, n2 = mp.of_type(p1, "NodeProto"), mp.of_type(p2, "NodeProto")
+    if len(n1) != len(n2):
+        count("report_only_raw_comparison_not_aligned", 1)
+        return out
+    count("raw_output_lists_compared", len(n1))
+    for a, b in zip(n1, n2):
+        oa, ob = list(a.output), list(b.output)
+        if oa != ob:
+            ta, tb = list(oa), list(ob)
+            while ta and ta[-1] == "":
+                ta.pop()
+            while tb and tb[-1] == "":
+                tb.pop()
+            if ta != tb:  # cannot happen when the canonical forms are equal and the walks aligned
+                count("report_only_raw_comparison_not_aligned", 1)
+                return out
+            cls = "trailing unnamed outputs lost" if len(ob) < len(oa) else "trailing unnamed outputs added"
+            if not any(e["core"].endswith(cls) for e in out):
+                out.append({"cls": "not-idempotent", "core": f"NodeProto.output|{cls}", "kinds": False,
+                            "text": f"p1 -> IR -> p2: node {a.name!r} ({a.op_type}) has outputs {oa!r} in the library's own output p1 "
+                                    f"but {ob!r} after one more trip (the canonical form trims trailing unnamed outputs, so only the raw "
+                                    f"lists differ): p1 does not serialize to itself"})
+        if a.domain != b.domain:
+            count("report_only_node_domain_spelling_changed_on_second_trip", 1)
+    c1s, c2s = mp.containers(p1), mp.containers(p2)
+    if len(c1s) == len(c2s):
+        for a, b in zip(c1s, c2s):
+            if sorted(v.name for v in a.value_info) != sorted(v.name for v in b.value_info):
+                count("report_only_value_info_names_changed_on_second_trip", 1)
+    return out
+
+
 class _Null:
     def __call__(self, *a, **k) -> None:
         return None
@@ -1121,6 +1164,13 @@ def judge(proto, kind: str, count=None, on_phase=None, tag: str = "", want_hash:
                         if not stripped:
                             count("report_only_name_only_value_info_dropped", 1)
                         diffs = stripped
+            if not diffs:
+                # the canonical form forgives what the serializer is documented to normalise (C02: N5 trailing unnamed
+                # node outputs, N1 alias domain, N3/N4 value-info added/dropped).  p1 IS the serializer's output, so
+                # those normalisations have been applied to it already and "serializes to itself" is judged on the
+                # raw lists: a serializer that trims on the second trip what it wrote on the first has no fixed point
+                for ev in _raw_fixed_point_events(p1, p2, count):
+                    events.append(ev)
             if c1 != c2:
                 seen = set()
                 for d in diffs:
@@ -1333,7 +1383,15 @@ def run_case(ctx, spec: dict, rec, on_phase, corpus: list[str], state: dict) -> 
             rec.count("deeply_nested_small_cases")
     rec.count("canary_locations", sum(1 for loc in mp.external_locations(proto) if mp.CANARY in loc))
 
+    degenerate = mp.all_empty_lists(proto) if any(m[0] in ("empty_run", "empty_name", "unname") for m in muts) else []
+    if degenerate:
+        rec.count("all_empty_list_cases")
+
     events, info = judge(proto, kind, rec.count, on_phase, tag=str(case))
+    if degenerate and info["outcome"].endswith("round trip judged"):
+        rec.count("all_empty_list_round_trips")
+        for d in degenerate:
+            rec.count(f"all_empty_round_trip:{d}")
     nontrivial = bool(muts) and info["progressed"]
     rec.evaluation(key=stable_hash([kind, stable_hash(base64.b64encode(base_bytes).decode()), muts]), nontrivial=nontrivial)
     if nontrivial and not events and state["samples"] < 3:
